@@ -64,6 +64,10 @@ def replay_behaviour(arg):
                     objs[t] = fresh_mps() if (qd[1] or rng.random() < 0.5) else ptn.MPS.from_vector(2, L, env['v'][1][0], tol=0.0)
                     if not qd[1] and len(objs[t].qD[-1]) and True:
                         pass
+                elif any([int(v) for v in objs[a].qD[0]] != qD[0] or [int(v) for v in objs[a].qD[-1]] != qD[-1] for a in args):
+                    # an in-place call on a zero state may relabel its boundary bond (Sector.tla, C02): + / - then refuse the
+                    # operands by assertion, which is not an aliasing matter
+                    return 'skipped', 'operand relabelled its boundary charge (in-place call on a zero state)', done
                 elif len(args) == 1:
                     x = objs[args[0]]
                     k = int(rng.integers(4))
